@@ -133,6 +133,17 @@ class ImgArr:
             return NativeMethod(lambda e, r, a, k: ImgArr(r.shape, r.dtype, r.elem, r.name), self, name)
         if name == "__getitem__":
             return NativeMethod(lambda e, r, a, k: r.__pyvc_getitem__(e, a[0]), self, name)
+        if name == "item":
+            def item(e, r, a, k):
+                if a or k:
+                    raise Unsupported("ndarray.item(index)")
+                used(e, "ndarray.item(): the single element of a size-1 array, ValueError otherwise")
+                one = z3.And(*[_z(d) == 1 for d in r.shape]) if r.shape else z3.BoolVal(True)
+                if not e.branch(e.sbool(one)):
+                    raise ProgExc(ValueError, "can only convert an array of size 1 to a Python scalar")
+                return Sym(r.elem([z3.IntVal(0)] * r.ndim), "real")
+
+            return NativeMethod(item, self, name)
         raise Unsupported(f"ndarray.{name} on an opaque image array")
 
     def astype(self, eng, dt):
@@ -875,8 +886,27 @@ def install():
         pass
 
 
+def _np_add(eng, args, kwargs):
+    """np.add(a, b) = a + b after np.asarray of list arguments (fixed-length vectors only)"""
+    if len(args) != 2 or kwargs:
+        raise Unsupported("np.add call form")
+    from .models import lookup_model
+
+    vals = []
+    for v in args:
+        if isinstance(v, PList):
+            v = lookup_model(np.array)(eng, [v], {})
+        vals.append(v)
+    if not any(isinstance(v, NArr) for v in vals):
+        raise Unsupported("np.add on these operands")
+    used(eng, "np.add(a, b) on fixed-length vectors = a + b elementwise (np.asarray of list arguments)")
+    return eng.binop(ast.Add(), vals[0], vals[1])
+
+
 def _install_io():
     import os
+
+    EXTRA_MODELS[np.add] = _np_add
 
     from . import narr
 
